@@ -9,6 +9,8 @@ Open Scope list_scope.
 Open Scope Z_scope.
 
 Arguments obs clients h : simpl never.
+Arguments stepd fl h o : simpl never.
+Arguments drain fl fuel batch h : simpl never.
 
 (** ** boolean equalities *)
 Lemma czlist_eqb_eq a b : CheckLib.zlist_eqb a b = true <-> a = b.
@@ -69,9 +71,9 @@ Definition inv (fl : rflags) (h : hub) : Prop := hub_synced fl h /\ dm_safe fl (
 Lemma inv_init fl : inv fl hub_init.
 Proof. split; [apply hub_init_sync | apply dm_init_safe]. Qed.
 
-Lemma inv_step fl o h : sound fl -> inv fl h -> inv fl (fst (step fl h o)) /\ dm_le (h_dm h) (h_dm (fst (step fl h o))).
+Lemma inv_step fl o h : sound fl -> inv fl h -> inv fl (fst (stepd fl h o)) /\ dm_le (h_dm h) (h_dm (fst (stepd fl h o))).
 Proof.
-  intros Hsd [Hs Hf]. destruct (step_safe fl o h Hf) as [Hf' Hl]. split; [split; [now apply step_sync | exact Hf'] | exact Hl].
+  intros Hsd [Hs Hf]. destruct (stepd_safe fl o h Hf) as [Hf' Hl]. split; [split; [now apply stepd_sync | exact Hf'] | exact Hl].
 Qed.
 
 (** a recorded pair: the snapshot of a synced hub before a clean restart and after it, taken at a state from which
@@ -86,12 +88,12 @@ Proof.
   intros Hsd. induction 1 as [|o ops Ho _ IH]; intros h Hi; cbn [run_obs run].
   - split; [reflexivity|]. split; [exact Hi|]. split; [apply dm_le_refl | constructor].
   - destruct (inv_step fl o h Hsd Hi) as [Hi1 Hl1].
-    destruct (step fl h o) as [h1 r] eqn:E. cbn [fst] in Hi1, Hl1.
+    destruct (stepd fl h o) as [h1 r] eqn:E. cbn [fst] in Hi1, Hl1.
     specialize (IH h1 Hi1). destruct (run_obs fl cl ops h1) as [[hf rs] ps].
     destruct IH as (Er & Hif & Hlf & Hps). rewrite <- Er.
     split; [reflexivity|]. split; [exact Hif|]. split; [eapply dm_le_trans; eauto|].
     destruct o as [o|o|o|o|crash]; cbn [is_restart]; try exact Hps.
-    destruct crash; [destruct Ho|]. cbn in E. injection E as <- <-.
+    destruct crash; [destruct Ho|]. rewrite stepd_restart in E. injection E as <- <-.
     constructor; [|exact Hps]. exists h. split; [exact Hi|]. split; [reflexivity|]. split; [reflexivity|].
     eapply dm_le_trans; eauto.
 Qed.
@@ -110,17 +112,17 @@ Lemma strip_sim fl ops : sound fl -> Forall clean ops -> forall h h', hub_synced
   /\ hsim (fst (run fl ops h)) (fst (run fl (strip ops) h')).
 Proof.
   intros Hsd. induction 1 as [|o ops Ho _ IH]; intros h h' Hs Hh; [now split|].
-  assert (Hs1 : hub_synced fl (fst (step fl h o))) by now apply step_sync.
+  assert (Hs1 : hub_synced fl (fst (stepd fl h o))) by now apply stepd_sync.
   destruct (is_restart o) eqn:Er.
   - destruct o as [o|o|o|o|crash]; try discriminate. destruct crash; [destruct Ho|].
-    cbn [run step strip filter is_restart negb]. cbn [step fst] in Hs1.
+    cbn [run strip filter is_restart negb]. rewrite stepd_restart in *. cbn [fst] in Hs1.
     specialize (IH (reopen fl false h) h' Hs1 (reopen_sim_left fl h h' Hsd Hs Hh)).
     destruct (run fl ops (reopen fl false h)) as [h2 rs]. cbn [fst snd] in *.
     unfold strip_res. cbn [combine filter is_restart fst negb]. exact IH.
   - assert (Est : strip (o :: ops) = o :: strip ops) by (unfold strip; cbn; now rewrite Er).
     rewrite Est. cbn [run].
-    destruct (step_sim fl o h h' Ho Hh) as [Hr Hh1].
-    destruct (step fl h o) as [h1 r], (step fl h' o) as [h1' r']. cbn [fst snd] in *. subst r'.
+    destruct (stepd_sim fl o h h' Ho Hh) as [Hr Hh1].
+    destruct (stepd fl h o) as [h1 r], (stepd fl h' o) as [h1' r']. cbn [fst snd] in *. subst r'.
     specialize (IH h1 h1' Hs1 Hh1).
     destruct (run fl ops h1) as [h2 rs], (run fl (strip ops) h1') as [h2' rs']. cbn [fst snd] in *.
     unfold strip_res in *. cbn [combine filter fst]. rewrite Er. cbn [negb map snd]. destruct IH as [-> IH2]. now split.
